@@ -289,6 +289,45 @@ def _rest(col, crate, adt, gi, DIMS, DATA, sfx):
             else:
                 col.violation("Y4" + sfx, key, b.loc(), "Tensor equality never compares `%s`: tensors with different %s compare equal" % (fname, "shapes" if fname == "dims" else "elements"))
 
+        # ... and the verdict is their conjunction: `true` only when both comparisons say equal, `false` only when one
+        # of them says different (`||` instead of `&&` makes tensors of one shape with different contents equal)
+        def cmp_of(t):
+            """(field index, polarity) when t is an eq/ne call comparing the same field of both operands"""
+            if not (isinstance(t, tuple) and t and t[0] == "call" and str(t[1]).rsplit("::", 1)[-1] in ("eq", "ne")):
+                return None
+            flds = {(s_[1][1][1], s_[2]) for a_ in t[2] for s_ in [a_] + list(subterms(a_)) if isinstance(s_, tuple) and s_ and s_[0] == "field" and s_[1][0] == "deref" and s_[1][1][0] == "param"}
+            for fidx in (DIMS, DATA):
+                if flds == {(1, fidx), (2, fidx)}:
+                    return fidx, str(t[1]).endswith("::eq")
+            return None
+
+        conj_ok = bool(Ib.final_states)
+        for st in Ib.final_states:
+            known = {}
+            for f in st.facts:
+                c_ = cmp_of(f[1])
+                if c_ is not None and f[0] in ("eq", "ne") and f[2] in (0, 1):
+                    truth = (f[0] == "eq") == bool(f[2])
+                    known[c_[0]] = truth if c_[1] else not truth
+            r = util.ret_term(st)
+            rc = cmp_of(r)
+            if r == mk_int(1):
+                conj_ok = conj_ok and known.get(DIMS) is True and known.get(DATA) is True
+            elif r == mk_int(0):
+                conj_ok = conj_ok and (known.get(DIMS) is False or known.get(DATA) is False)
+            elif rc is not None and rc[1]:
+                other = DATA if rc[0] == DIMS else DIMS
+                conj_ok = conj_ok and known.get(other) is True
+            elif r[0] == "bin" and r[1] == "BitAnd" and {(cmp_of(r[2]) or (None, None))[0], (cmp_of(r[3]) or (None, None))[0]} == {DIMS, DATA} and cmp_of(r[2])[1] and cmp_of(r[3])[1]:
+                pass
+            else:
+                conj_ok = False
+        key = "%s|conjunction" % fk(b)
+        if conj_ok:
+            col.ok("Y4" + sfx, b.loc(), key, "equal exactly when shapes and elements are equal")
+        else:
+            col.violation("Y4" + sfx, key, b.loc(), "Tensor equality is not the conjunction of the shape comparison and the element comparison: some path answers `true` with one of them unequal, or `false` with both equal")
+
     # ---------------- Y5b writers step the last index fastest
     helpers_ = util.private_helpers(crate, "Tensor", exclude=[gi])
     hkeys = {h.key for h in helpers_}
